@@ -187,14 +187,7 @@ func printerAgreement(ctx *common.Ctx, g *gen, n int) {
 		checked++
 		ctx.Hist("printer:checked")
 		if l[9] != nil {
-			// a string: princ-to-string keeps the quotes, and princ writes "" for the empty string (known
-			// findings C15-princ-to-string-quotes, C15-princ-empty-string); ~A is judged against princ to a stream
-			// for non-empty strings and against the string itself
 			ctx.Hist("printer:string")
-			pc = str(6)
-			if a == "" {
-				pc = ""
-			}
 		}
 		if a != pc {
 			ctx.Violate("~A differs from princ", e, a, pc)
@@ -216,7 +209,7 @@ func printerAgreement(ctx *common.Ctx, g *gen, n int) {
 		if str(5) != padL {
 			ctx.Violate(fmt.Sprintf("~%d@S is not prin1-to-string padded on the left to %d columns", w, w), e, str(5), padL)
 		}
-		if str(6) != pc && !(l[9] != nil && a == "") {
+		if str(6) != pc {
 			ctx.Violate("princ to a stream differs from princ-to-string", e, str(6), pc)
 		}
 		if str(7) != p1 {
